@@ -18,7 +18,7 @@ from . import common as cm
 from . import c10_gen as G
 
 REQ = ["Text.FilePos", "Text.FileText", "Text.Split", "Text.StrLits", "Text.Wire"]
-ANCHORS = ["pyflyby._file:FilePos.__add__", "pyflyby._file:FileText.__new__", "pyflyby._file:FileText.endpos",
+ANCHORS = ["pyflyby._file:FilePos.__add__", "pyflyby._file:FileText.__new__", "pyflyby._file:FileText.alter", "pyflyby._file:FileText.endpos",
            "pyflyby._file:FileText._lineno_to_index", "pyflyby._file:FileText._colno_to_index",
            "pyflyby._file:FileText.__getitem__", "pyflyby._file:FileText.concatenate",
            "pyflyby._parse:_is_comment_or_blank", "pyflyby._parse:_split_code_lines",
@@ -105,6 +105,31 @@ def gen_cases(ctx, n, ncorpus):
         k = r.random()
         sp = [1, 1] if k < .7 else [r.randint(1, 40), r.choice([1, 1, 2, 5, 9])]
         cases.append({"kind": "gen", "i": i, "src": src, "sp": sp})
+    # sequences of operations on ONE FileText / PythonBlock object (cached attributes, re-basing, slicing)
+    nseq = max(60, n // 8)
+    for j in range(nseq):
+        r = cm.rng(ctx.seed, "c10-seq", j)
+        src = G.gen_compilable(r, max_elems=4)
+        ops = []
+        for _ in range(r.randint(3, 8)):
+            k = r.random()
+            if k < .3:
+                ops.append(["read", r.choice(["endpos", "lines", "joined", "startpos", "endpos"])])
+            elif k < .55:
+                ops.append(["stmts"])
+            elif k < .75:
+                ops.append([r.choice(["rebase_ft", "rebase_block"]), r.randint(1, 30), r.choice([1, 1, 2, 5, 11])])
+            elif k < .83:
+                ops.append(["lits"])
+            elif k < .93:
+                ops.append(["piece", r.randint(0, 50)])
+            else:
+                ops.append(["concat", r.randint(0, 50), r.randint(1, 3)])
+        ops.append(["stmts"])
+        cases.append({"kind": "seq", "i": j, "src": src, "sp": [1, 1] if r.random() < .6 else [r.randint(1, 9), r.choice([1, 3, 7])],
+                      "ops": ops, "loglevel_mid": r.choice([None, None, "DEBUG", "WARNING"])})
+    cases.append({"kind": "seq", "tag": "alter-endpos", "src": "x = 1; y = 22222", "sp": [1, 1],
+                  "ops": [["read", "endpos"], ["stmts"], ["rebase_ft", 1, 5], ["stmts"], ["rebase_block", 3, 2], ["stmts"]], "loglevel_mid": None})
     files = corpus_files()
     if ncorpus is not None and ncorpus < len(files):
         r = cm.rng(ctx.seed, "c10-corpus")
@@ -117,12 +142,82 @@ def gen_cases(ctx, n, ncorpus):
 # ---------------------------------------------------------------------------------------------
 # implementation side
 
+def _pieces_of(block):
+    pieces = []
+    for s in block.statements:
+        n = s.ast_node
+        pieces.append({"text": s.text.joined, "sp": [s.startpos.lineno, s.startpos.colno],
+                       "node": None if n is None else [n.lineno, n.col_offset, type(n).__name__]})
+    return pieces
+
+
+def impl_seq(c):
+    """a sequence of operations on the same FileText / PythonBlock objects; every `stmts` / `lits` step
+    is an observation (current text, start position, end position, pieces)"""
+    from pyflyby._file import FileText
+    from pyflyby._parse import PythonBlock
+    ft = FileText(c["src"], startpos=tuple(c["sp"]))
+    block = None
+    steps = []
+    for op in c["ops"]:
+        try:
+            if op[0] == "read":
+                v = getattr(ft, op[1])
+                if op[1] == "endpos":
+                    steps.append({"op": op, "endpos": [v.lineno, v.colno], "text": ft.joined, "sp": [ft.startpos.lineno, ft.startpos.colno]})
+            elif op[0] == "stmts":
+                block = PythonBlock(ft)
+                steps.append({"op": op, "text": ft.joined, "sp": [ft.startpos.lineno, ft.startpos.colno],
+                              "pieces": _pieces_of(block), "endpos": [ft.endpos.lineno, ft.endpos.colno]})
+            elif op[0] == "rebase_ft":
+                ft = FileText(ft, startpos=(op[1], op[2]))
+            elif op[0] == "rebase_block":
+                b = block if block is not None else PythonBlock(ft)
+                block = PythonBlock(b.text, startpos=(op[1], op[2]))
+                ft = block.text
+            elif op[0] == "lits":
+                b = PythonBlock(ft)
+                steps.append({"op": op, "text": ft.joined, "sp": [ft.startpos.lineno, ft.startpos.colno],
+                              "lits": [[n.startpos.lineno, n.startpos.colno] for n in b.string_literals()]})
+            elif op[0] == "piece":
+                st = (block if block is not None else PythonBlock(ft)).statements
+                ft = st[op[1] % len(st)].text
+                block = None
+            elif op[0] == "concat":
+                st = (block if block is not None else PythonBlock(ft)).statements
+                i = op[1] % len(st)
+                ft = FileText.concatenate([x.text for x in st[i:i + op[2]]])
+                block = None
+        except BaseException as e:
+            steps.append({"op": op, "exc": type(e).__name__, "msg": str(e)[:160]})
+            break
+    return {"steps": steps}
+
+
 def impl_case(c):
     import contextlib
     from pyflyby._parse import PythonBlock
     src = case_source(c)
     if src is None:
         return {"skip": "unreadable"}
+    from pyflyby._log import logger
+    old_level = getattr(logger, "level", None)
+    if c.get("loglevel_mid"):
+        logger.set_level(c["loglevel_mid"])
+    try:
+        if c["kind"] == "seq":
+            with contextlib.redirect_stdout(io.StringIO()), contextlib.redirect_stderr(io.StringIO()), warnings.catch_warnings():
+                warnings.simplefilter("ignore")
+                return impl_seq(c)
+        return impl_case_1(c, src)
+    finally:
+        if c.get("loglevel_mid") and old_level is not None:
+            logger.setLevel(old_level)
+
+
+def impl_case_1(c, src):
+    import contextlib
+    from pyflyby._parse import PythonBlock
     out = {}
     with contextlib.redirect_stdout(io.StringIO()), contextlib.redirect_stderr(io.StringIO()), warnings.catch_warnings():
         warnings.simplefilter("ignore")
@@ -453,6 +548,47 @@ def compare_one(ctx, c, p, im, mv):
         ctx.sample({"case": c, "impl_pieces": im.get("pieces", [])[:6]}, limit=3)
 
 
+def run_sequences(ctx, cases, impl):
+    """every observation of a sequence is compared with the (pure) model evaluated afresh on the current
+    text and start position; the text itself must be what the operations imply"""
+    exprs, where = [], []
+    for ci, (c, im) in enumerate(zip(cases, impl)):
+        if "__exc__" in im or "__timeout__" in im:
+            ctx.violation("harness", c, im)
+            continue
+        for si, st in enumerate(im["steps"]):
+            if "exc" in st:
+                ctx.violation("statements_total", c, "step %d %s of a sequence on one object raised %s: %s" % (si, st["op"], st["exc"], st.get("msg", "")))
+                continue
+            if "pieces" in st or "endpos" in st:
+                try:
+                    tree, nodes = G.nodes_of(st["text"], tuple(st["sp"]))
+                except (SyntaxError, ValueError):
+                    continue
+                if modelable(st["text"], st["sp"], nodes):
+                    exprs.append(model_expr(st["text"], st["sp"], nodes))
+                    where.append((ci, si, nodes))
+    model = cm.coq_eval_json(REQ, exprs, shard=60)
+    for (ci, si, nodes), mv in zip(where, model):
+        c, st = cases[ci], impl[ci]["steps"][si]
+        ctx.bump("seq_steps_compared")
+        if mv["endpos"] != st["endpos"]:
+            ctx.disagreement("FileText.endpos after a sequence of operations on one object", c, {"step": si, "op": st["op"], "endpos": st["endpos"], "sp": st["sp"]}, mv["endpos"])
+        if "pieces" in st:
+            if "".join(q["text"] for q in st["pieces"]) != st["text"]:
+                ctx.violation("split_lossless", c, "step %d: pieces do not concatenate to the current text %r" % (si, st["text"][:60]))
+            raw_index = {tuple(n["raw"]): i for i, n in enumerate(nodes)}
+            impl_p = [{"node": None if q["node"] is None else raw_index.get((q["node"][0], q["node"][1]), "unknown"),
+                       "text": q["text"], "sp": q["sp"]} for q in st["pieces"]]
+            if mv["pieces"] != impl_p:
+                ctx.disagreement("PythonBlock.statements after a sequence of operations on one object", c,
+                                 {"step": si, "ops": c["ops"][:si + 1], "pieces": impl_p[-3:]}, (mv["pieces"] or [])[-3:])
+    for c, im in zip(cases, impl):
+        if "steps" in im:
+            ctx.bump("kind:seq")
+            ctx.count({k: v for k, v in c.items()}, True)
+
+
 def run(ctx):
     cm.check_anchors(ctx, ANCHORS)
     scale = getattr(ctx, "scale", 1)
@@ -464,11 +600,28 @@ def run(ctx):
                             "distinct by hash of the case" % MAX_MODEL_CHARS)
     ctx.assumptions += [
         "CPython's top-level node list (start as character column, '@' of the first decorator, absolute last line, end position) is an oracle argument computed by the harness from ast + tokenize, independently of pyflyby; wf_nodes and ends_ok are evaluated on it for every case",
+        "history independence: sequences of operations on one FileText / PythonBlock object (reading cached attributes, re-basing with FileText(ft, startpos) / PythonBlock(block.text, startpos), taking a piece, concatenating pieces, splitting again) are compared step by step with the pure model evaluated afresh; 20%/10% of all cases run with PYFLYBY_LOG_LEVEL=DEBUG/WARNING at import, some switch the level mid-process",
         "the tag carried by a piece is the node's index; the re-parse that PythonBlock performs on split-off blank/comment blocks is represented by 'no node'",
     ]
     ctx.notes["trusted_base"] = ["CPython ast/tokenize positions (node oracle), compared with pyflyby's own annotation on every case"]
     cases = cm.load_corpus("C10") + gen_cases(ctx, n, ncorpus)
-    impl = cm.run_impl("c10", "impl_case", cases, timeout_case=120)
+    # observables must not depend on the log level: a share of the cases runs with PYFLYBY_LOG_LEVEL set to
+    # DEBUG / WARNING at import (the rest: ERROR), some set the level mid-process (loglevel_mid)
+    impl = [None] * len(cases)
+    groups = {"ERROR": [], "DEBUG": [], "WARNING": []}
+    for i, c in enumerate(cases):
+        k = cm.derive_seed(ctx.seed, "c10-loglevel", i) % 20
+        groups["DEBUG" if k < 4 else "WARNING" if k < 6 else "ERROR"].append(i)
+    for level, idxs in groups.items():
+        res = cm.run_impl("c10", "impl_case", [cases[i] for i in idxs], timeout_case=120, env_extra={"PYFLYBY_LOG_LEVEL": level})
+        for i, r in zip(idxs, res):
+            impl[i] = r
+            ctx.bump("loglevel:" + level)
+    seq_idx = [i for i, c in enumerate(cases) if c["kind"] == "seq"]
+    run_sequences(ctx, [cases[i] for i in seq_idx], [impl[i] for i in seq_idx])
+    keep = [i for i, c in enumerate(cases) if c["kind"] != "seq"]
+    cases = [cases[i] for i in keep]
+    impl = [impl[i] for i in keep]
     prep = prepare(cases)
     exprs, where = [], []
     for i, p in enumerate(prep):
@@ -506,6 +659,9 @@ def run(ctx):
 def replay(payload):
     case = payload.get("case") or payload["disagreements"][0]["case"]
     impl = cm.run_impl("c10", "impl_case", [case], jobs=1)
+    if case.get("kind") == "seq":
+        print(json.dumps({"case": case, "impl": impl[0]}, indent=1, ensure_ascii=False))
+        return 0
     p = prepare([case])[0]
     model = cm.coq_eval_json(REQ, [p["expr"]]) if p and p["expr"] else [None]
     print(json.dumps({"case": case, "nodes": p["nodes"] if p else None, "impl": impl[0], "model": model[0],
